@@ -1,7 +1,7 @@
 """C13 — point containment predicates (structural clauses)."""
 from . import scopes
 from ..core.report import DOMAIN_D
-from ..rules import colliders, frame, degree, affine, unpack
+from ..rules import colliders, frame, degree, affine, unpack, purity, onsegment, misc2
 from .common import e2
 
 MODS = {"distance3d.containment_test", "distance3d.utils"}
@@ -22,4 +22,7 @@ def run(idx, rep, tier):
     fr_rets = e2(idx)
     frame.r_frame(idx, rep, fr_rets, modules=MODS, floor=8)
     degree.r_degree(idx, rep, modules=sorted(MODS), floor=8)
+    purity.r_pureargs(idx, rep, ["distance3d.containment_test", "distance3d.utils"], floor=5)
+    onsegment.r_halfsize(idx, rep, ["distance3d.containment_test"] + [x.name for x in idx.lib_modules() if x.name.startswith("distance3d.distance")], floor=3)
+    misc2.r_dupcond(idx, rep, [m.name for m in idx.lib_modules()], floor=3)
     unpack.r_unpack(idx, rep, floor=1)
